@@ -31,7 +31,7 @@ RULE = ("seeded random declaration trees (depth <= 3: arguments, dotted groups, 
         "change the answer: on the object channel the nested mappings are dict / collections.OrderedDict / collections.defaultdict "
         "instances (drawn per case); 30% of the defaults=True cases on object / string / --cfg build the parser with "
         "default_env=True and run with decoy environment variables APP_<NAME> for the names of nested fields that are not "
-        "top-level arguments; 35% of the mutated cases run on a REUSED parser object that has already parsed (parse_object) its "
+        "top-level arguments; 35% (60% for parsers with an Optional[dataclass] parameter) of the mutated cases run on a REUSED parser object that has already parsed (parse_object) its "
         "valid configuration. "
         "Round 6: link attempts also target w.init_args.<int parameter> below a class-typed argument (an accepted one exempts the "
         "parameter in every class of w); foreign names also include a declared name in upper case; foreign values also include "
@@ -132,11 +132,11 @@ class Gen:
             r = rng.random()
             if name.startswith("_"):
                 fs.append([name, ["arg", True] if rng.random() < 0.65 else ["hidden"]])
-            elif depth <= 0 or r < 0.55:
+            elif depth <= 0 or r < 0.52:
                 fs.append([name, ["arg", rng.random() < 0.5]])
-            elif r < 0.7:
+            elif r < 0.66:
                 fs.append([name, ["data", False, self.class_fields(depth - 1)]])
-            elif r < 0.82:
+            elif r < 0.78:
                 fs.append([name, ["class", rng.random() < 0.4, self.classes(depth - 1)]])
             elif r < 0.91:
                 # Optional[dataclass] = None: only as a field / parameter that comes from a signature
@@ -647,7 +647,8 @@ def decorate(rng, cases):
     for c in cases:
         # parse history: the SAME parser object has already parsed its valid configuration (parse_object) before it is
         # given the mutated one; a reused parser must answer like a fresh one
-        if c.get("label") != "valid" and id(c["parser"]) in valid_of and rng.random() < 0.35:
+        # (parsers with an Optional[dataclass] parameter keep per-action state between parses — sub_add_kwargs — and are reused more often)
+        if c.get("label") != "valid" and id(c["parser"]) in valid_of and rng.random() < (0.6 if '"odata"' in json.dumps(c["parser"]) else 0.35):
             c["warm"] = [valid_of[id(c["parser"])]]
         if c["channel"] == "object":
             c["container"] = rng.choice(CONTAINERS)
